@@ -778,7 +778,21 @@ pub fn gen_request(rng: &mut Rng, cfg: &SvcCfg, token: &str) -> GenReq {
 /// a frame serde_json must reject (or that is at least hostile)
 pub fn gen_malformed(rng: &mut Rng, cfg: &SvcCfg, token: &str) -> GenReq {
     let good = gen_request(rng, cfg, token).bytes;
-    let (bytes, kind): (Vec<u8>, &str) = match rng.below(14) {
+    let (bytes, kind): (Vec<u8>, &str) = match rng.below(16) {
+        14 | 15 => {
+            // long malformed text with a multi-byte / invalid byte sitting right at a power-of-two offset
+            // (where excerpts and buffers are usually cut)
+            let base = *rng.pick(&[64usize, 128, 256, 512, 1024, 4096, 8192]);
+            let off = base - 3 + rng.below(6);
+            let mut v: Vec<u8> = std::iter::repeat(b'x').take(off).collect();
+            match rng.below(3) {
+                0 => v.extend_from_slice("é".as_bytes()),
+                1 => v.extend_from_slice("\u{3000}".as_bytes()),
+                _ => v.push(0xFF),
+            }
+            v.extend_from_slice(b" trailing junk");
+            (v, "bad:long-nonascii-at-boundary")
+        }
         0 => (b"{".to_vec(), "bad:trunc-brace"),
         1 => (Vec::new(), "bad:empty"),
         2 => (vec![0xff, 0xfe, b'{', b'}'], "bad:utf8"),
